@@ -33,6 +33,8 @@ for line in sys.stdin:
         n = 'r10-' + n.lstrip('b')
     if '/out11-' in r['seed']:
         n = 'r11-' + n.lstrip('b')
+    if '/out12-' in r['seed']:
+        n = 'r12-' + n.lstrip('b')
     dst = '/verif/seeded/%s-%s' % (prop, n)
     os.makedirs(dst, exist_ok=True)
     for f in ('patch.diff', 'demo.py'):
